@@ -18,6 +18,7 @@ use serde_json::Value;
 pub const NSHARDS: u32 = 16;
 pub const ROUNDS: u32 = 4;
 pub const DEFAULT_SEED: u64 = 20261004;
+pub const MAX_HASHES_PER_SHARD: usize = 3_000_000;
 
 #[derive(Clone, Copy, PartialEq, Eq, Debug)]
 pub enum Tier {
@@ -132,6 +133,9 @@ pub struct ShardResult {
     /// hashed.
     #[serde(default)]
     pub distinct_by_construction: u64,
+    /// The per-shard hash set hit its cap: distinct_nontrivial is a lower bound.
+    #[serde(default)]
+    pub distinct_saturated: bool,
 }
 
 #[derive(Serialize, Deserialize, Clone, Debug)]
@@ -333,7 +337,13 @@ impl Ctx {
             }
             if obs.nontrivial {
                 i.res.nontrivial_cases += 1;
-                i.hashes.insert(hash64(&(oracle, case_json)));
+                // The set is capped per shard; beyond the cap the distinct count is a lower bound
+                // (reported as such in the evidence).
+                if i.hashes.len() < MAX_HASHES_PER_SHARD {
+                    i.hashes.insert(hash64(&(oracle, case_json)));
+                } else {
+                    i.res.distinct_saturated = true;
+                }
                 let n = i.sample_count.entry(oracle.to_string()).or_insert(0);
                 if *n < 2 && case_json.len() < 6000 {
                     *n += 1;
